@@ -180,7 +180,7 @@ impl SimNet {
                                 g.heap.pop();
                                 if let Some(d) = g.pending.remove(&id) {
                                     let t_us = (now - g.start).as_micros() as u64;
-                                    let k = (id >> 8) as usize;
+                                    let k = (id >> 24) as usize;
                                     g.delivered.push((t_us, k));
                                     if let Some(tx) = g.inboxes.get(&d.to) {
                                         let _ = tx.send((d.from, d.bytes));
@@ -198,9 +198,9 @@ impl SimNet {
     fn schedule(g: &mut NetInner, k: usize, copy: u64, extra_us: u64, d: Delivery) {
         let at = tokio::time::Instant::now() + Duration::from_micros(g.path.latency_us + extra_us);
         g.tiebreak += 1;
-        // id encodes the send index so that equal-instant deliveries are FIFO by send order
-        let id = ((k as u64) << 8) | (copy & 0xff);
-        let _ = g.tiebreak;
+        // id encodes the send index (FIFO among equal instants) and a per-run unique counter
+        let _ = copy;
+        let id = ((k as u64) << 24) | (g.tiebreak & 0xff_ffff);
         g.heap.push(Reverse((at, id)));
         g.pending.insert(id, d);
     }
@@ -301,6 +301,11 @@ impl SimNet {
 
     /// Harness-side injection "now" (delivered after the path latency), e.g. hostile datagrams.
     pub fn inject_now(&self, from: SocketAddr, to: SocketAddr, bytes: Vec<u8>) {
+        self.inject_with_latency(from, to, bytes, true)
+    }
+
+    /// `with_latency` = false: the datagram arrives in this very instant
+    pub fn inject_with_latency(&self, from: SocketAddr, to: SocketAddr, bytes: Vec<u8>, with_latency: bool) {
         let mut g = self.inner.lock();
         let t_us = (tokio::time::Instant::now() - g.start).as_micros() as u64;
         let parsed = ref_parse_message(&bytes);
@@ -318,9 +323,14 @@ impl SimNet {
             injected: true,
         });
         let k = g.next_k; // ordering only; does not consume an index
-        g.tiebreak += 1;
-        let copy = 100 + (g.tiebreak & 0x7f);
-        Self::schedule(&mut g, k, copy, 0, Delivery { from, to, bytes });
+        if with_latency {
+            Self::schedule(&mut g, k, 0, 0, Delivery { from, to, bytes });
+        } else {
+            let saved = g.path.latency_us;
+            g.path.latency_us = 0;
+            Self::schedule(&mut g, k, 0, 0, Delivery { from, to, bytes });
+            g.path.latency_us = saved;
+        }
         drop(g);
         self.notify.notify_one();
     }
